@@ -17,10 +17,20 @@
 // gap/indentation shape (counted as spelling_only).  Different: violation.
 // The harness also draws random numbers and strings, serialises and re-parses
 // them on otto and lets TLC judge the recorded results.
+//
+// Go-side marshalling (family "go", JSONSpec!GoMarshal): the case text is only
+// the value; it is evaluated, the otto.Value is handed to Go and serialised
+// there in the way the case names (Value.MarshalJSON, Object.MarshalJSON,
+// encoding/json over the Value itself / a pointer / a map / a slice / a struct /
+// a nested structure holding it, Export + json.Marshal).  The text (or the Go
+// error) is projected to the same outcome shape as a JSON.stringify call and
+// compared / judged in the same way; exported values are judged up to the
+// order of members (kind "textmo").
 package c11
 
 import (
 	"encoding/json"
+	"errors"
 	"fmt"
 	"hash/fnv"
 	"math"
@@ -30,6 +40,8 @@ import (
 	"sync"
 	"sync/atomic"
 	"time"
+	"unicode/utf16"
+	"unicode/utf8"
 
 	"github.com/robertkrimen/otto"
 
@@ -143,6 +155,9 @@ function RVF(kind, key, sib, thunk){
     throw new Error("RVF kind");
   };
 }
+// the Go-side family: the value itself is returned to Go; the call log is fetched after the marshalling
+function GOVAL(src){ LOG = []; REG = []; return (0,eval)(src); }
+function GOLOG(){ return SER(LOG); }
 function RUN11(src){
   LOG = []; REG = [];
   var thr = "", v;
@@ -168,6 +183,26 @@ type Line struct {
 	Exp json.RawMessage   `json:"exp"`
 	Dev []json.RawMessage `json:"dev"`
 	Rep int               `json:"rep"`
+
+	mode string // family "go": how the value reaches encoding/json
+}
+
+func (l *Line) setMode() {
+	if l.Fam == "go" {
+		var c struct {
+			Mode string `json:"mode"`
+		}
+		json.Unmarshal(l.C, &c)
+		l.mode = c.Mode
+	}
+}
+
+// label is the case as shown in reports.
+func (l *Line) label(src string) string {
+	if l.Fam == "go" {
+		return "Go-side marshalling [" + l.mode + "] of the value of " + src
+	}
+	return src
 }
 
 type outcome struct {
@@ -183,6 +218,7 @@ type vmBox struct {
 	vm    *otto.Otto
 	used  int
 	extra string // adapter mutant (self-test only)
+	goMut string // Go-side adapter mutant (self-test only)
 }
 
 var (
@@ -245,6 +281,142 @@ func (b *vmBox) eval(src string, consts map[string]float64) (out string, err err
 	return v.String(), nil
 }
 
+// goMarshal serialises the value on the Go side (the modes of JSONSpec!GoMarshal).
+func goMarshal(v otto.Value, mode string) ([]byte, error) {
+	switch mode {
+	case "value":
+		return v.MarshalJSON()
+	case "object":
+		o := v.Object()
+		if o == nil {
+			return nil, fmt.Errorf("harness: mode object on a value that is not an object")
+		}
+		return o.MarshalJSON()
+	case "marshal":
+		return json.Marshal(v)
+	case "pointer":
+		return json.Marshal(&v)
+	case "map":
+		return json.Marshal(map[string]interface{}{"k": v})
+	case "slice":
+		return json.Marshal([]otto.Value{v})
+	case "struct":
+		return json.Marshal(struct {
+			A otto.Value `json:"a"`
+			B int        `json:"b"`
+		}{v, 1})
+	case "nested":
+		return json.Marshal(map[string]interface{}{"m": []interface{}{struct{ V interface{} }{v}, nil}})
+	case "export":
+		x, err := v.Export()
+		if err != nil {
+			return nil, err
+		}
+		return json.Marshal(x)
+	}
+	return nil, fmt.Errorf("harness: unknown mode %q", mode)
+}
+
+func unitsJSON(s string) string {
+	u := utf16.Encode([]rune(s))
+	var sb strings.Builder
+	sb.WriteByte('[')
+	for i, x := range u {
+		if i > 0 {
+			sb.WriteByte(',')
+		}
+		fmt.Fprint(&sb, x)
+	}
+	sb.WriteByte(']')
+	return sb.String()
+}
+
+// goOutcome projects the result of a Go-side marshalling to the outcome shape
+// of RUN11: a text is a string value; an exception of the serialisation comes
+// back as a Go error (an otto error: its class; another thrown value: its
+// text); errors of encoding/json itself have classes of their own.
+func goOutcome(text []byte, err error, log string) string {
+	thr, v := "", `{"t":"undef"}`
+	switch {
+	case err != nil:
+		var oe *otto.Error
+		var uv *json.UnsupportedValueError
+		var se *json.SyntaxError
+		switch {
+		case errors.As(err, &oe):
+			thr = strings.SplitN(oe.Error(), ":", 2)[0]
+		case errors.As(err, &uv):
+			thr = "GoUnsupportedValue"
+		case errors.As(err, &se):
+			thr = "GoInvalidJSON"
+		case strings.HasPrefix(err.Error(), "harness:"):
+			thr = err.Error()
+		default:
+			in := err
+			for e := errors.Unwrap(in); e != nil; e = errors.Unwrap(in) {
+				in = e
+			}
+			thr, v = "value", `{"t":"str","s":`+unitsJSON(in.Error())+`}`
+		}
+	case !utf8.Valid(text):
+		thr = "GoInvalidUTF8"
+	default:
+		v = `{"t":"str","s":` + unitsJSON(string(text)) + `}`
+	}
+	return fmt.Sprintf(`{"thr":%q,"v":%s,"log":%s}`, thr, v, log)
+}
+
+// evalGo evaluates src (the value of a "go" case) and marshals it on the Go side.
+func (b *vmBox) evalGo(src string, consts map[string]float64, mode string) (out string, err error) {
+	defer func() {
+		if r := recover(); r != nil {
+			b.vm = nil
+			out, err = "", fmt.Errorf("GO PANIC: %v", r)
+		}
+	}()
+	if b.vm == nil || b.used >= perVM {
+		vm, e := newVM(b.extra)
+		if e != nil {
+			return "", e
+		}
+		b.vm, b.used = vm, 0
+	}
+	b.used++
+	for k, f := range consts {
+		if e := b.vm.Set(k, f); e != nil {
+			return "", e
+		}
+	}
+	v, e := b.vm.Call("GOVAL", nil, src)
+	if e != nil {
+		b.vm = nil
+		return "", fmt.Errorf("harness GOVAL failed: %v: %s", e, src)
+	}
+	text, merr := goMarshal(v, mode)
+	switch b.goMut {
+	case "swallows errors":
+		if merr != nil {
+			text, merr = []byte("null"), nil
+		}
+	case "marshals twice":
+		text, merr = goMarshal(v, mode)
+	}
+	lg, e := b.vm.Call("GOLOG", nil)
+	if e != nil {
+		b.vm = nil
+		return "", fmt.Errorf("harness GOLOG failed: %v", e)
+	}
+	return goOutcome(text, merr, lg.String()), nil
+}
+
+// evalLine evaluates the text of a case the way its family asks for.
+func (b *vmBox) evalLine(l *Line, src string, consts map[string]float64) (string, error) {
+	if l.Fam == "go" {
+		return b.evalGo(src, consts, l.mode)
+	}
+	return b.eval(src, consts)
+}
+
 func same(a string, b json.RawMessage) bool {
 	var x, y any
 	if json.Unmarshal([]byte(a), &x) != nil || json.Unmarshal(b, &y) != nil {
@@ -256,6 +428,7 @@ func same(a string, b json.RawMessage) bool {
 // jrec is one line of the judge's input (trace.ndjson).
 //
 //	kind "text": got = observed text, want = prescribed text followed by the texts permitted under open findings
+//	kind "textmo": likewise, judged up to the order of members (Go-side: Export + json.Marshal)
 //	kind "num" : n = a double, got = observed JSON.stringify(n), back = projection of JSON.parse(got) observed
 //	kind "str" : s = a string, got, back likewise
 //	kind "tree": v = a JSON value tree, gap = the space argument, got = JSON.stringify(v, null, gap), back likewise
@@ -273,6 +446,9 @@ type jrec struct {
 	src, out string
 	cse, exp json.RawMessage
 	control  int // expected verdict + 1 for control entries
+	label    string
+	consts   map[string]float64
+	redo     func() (string, error) // evaluates the case again on a fresh runtime
 }
 
 // textCandidate: both outcomes are normal completions with a string value and
@@ -313,14 +489,22 @@ type checker struct {
 	qkeys   map[string]bool
 	byFam   map[string]int64
 	kept    [][]byte // generated lines kept for the binding self-test
+	keptGo  [][]byte // likewise, Go-side family
 	spellEx []any    // examples of texts accepted as respellings
 }
 
+func (p *jrec) name() string {
+	if p.label != "" {
+		return p.label
+	}
+	return p.src
+}
+
 func (k *checker) enqueue(p *jrec) {
-	key := fmt.Sprint(p.Got, "|", p.Want)
+	key := fmt.Sprint(p.Kind, p.Got, "|", p.Want)
 	k.mu.Lock()
 	defer k.mu.Unlock()
-	if p.Kind == "text" && p.control == 0 {
+	if (p.Kind == "text" || p.Kind == "textmo") && p.control == 0 {
 		if k.qkeys[key] {
 			return
 		}
@@ -333,7 +517,7 @@ func (k *checker) enqueue(p *jrec) {
 // classify evaluates src and classifies the outcome against the line:
 // "conform", "dev", "text" (needs the judge), "panic", "mismatch".
 func classify(box *vmBox, l *Line, src string, consts map[string]float64) (string, string, error) {
-	out, err := box.eval(src, consts)
+	out, err := box.evalLine(l, src, consts)
 	if err != nil {
 		if strings.HasPrefix(err.Error(), "GO PANIC") {
 			return "panic", err.Error(), nil
@@ -360,11 +544,16 @@ func (k *checker) handle(box *vmBox, raw []byte) error {
 	if err := json.Unmarshal(raw, &l); err != nil {
 		return fmt.Errorf("bad line: %v: %s", err, raw[:min(len(raw), 200)])
 	}
+	l.setMode()
 	n := atomic.AddInt64(&k.n.cases, 1)
 	k.mu.Lock()
 	k.byFam[l.Fam]++
 	// the explicit families (deterministic content); the large stringify families are thinned by a content hash
-	if (l.Fam != "parse" || l.Rep > 1) && ((l.Fam != "str" && l.Fam != "rt1") || contentHash(l.Js)%4 == 0) {
+	if l.Fam == "go" {
+		if contentHash(l.Js)%4 == 0 {
+			k.keptGo = append(k.keptGo, raw)
+		}
+	} else if (l.Fam != "parse" || l.Rep > 1) && ((l.Fam != "str" && l.Fam != "rt1") || contentHash(l.Js)%4 == 0) {
 		k.kept = append(k.kept, raw)
 	}
 	k.mu.Unlock()
@@ -388,7 +577,7 @@ func (k *checker) handle(box *vmBox, raw []byte) error {
 			if n%499 == 1 && r == 0 {
 				k.mu.Lock()
 				if len(k.samples) < 8 {
-					k.samples = append(k.samples, map[string]any{"js": src, "expected": l.Exp})
+					k.samples = append(k.samples, map[string]any{"js": l.label(src), "expected": l.Exp})
 				}
 				k.mu.Unlock()
 			}
@@ -400,7 +589,14 @@ func (k *checker) handle(box *vmBox, raw []byte) error {
 		case "text":
 			// a text that differs from the prescribed one: let the specification read it
 			got, exp, _ := textCandidate(out, l.Exp)
-			p := &jrec{Kind: "text", Got: got, Want: [][]int{exp}, src: src, cse: l.C, out: out, exp: l.Exp}
+			p := &jrec{Kind: "text", Got: got, Want: [][]int{exp}, src: src, cse: l.C, out: out, exp: l.Exp, label: l.label(src), consts: consts}
+			if l.Fam == "go" {
+				if l.mode == "export" {
+					p.Kind = "textmo" // a Go map has no member order
+				}
+				lc := l
+				p.redo = func() (string, error) { return (&vmBox{}).evalGo(src, consts, lc.mode) }
+			}
 			for _, d := range l.Dev {
 				if _, e2, ok2 := textCandidate(out, d); ok2 {
 					p.Want = append(p.Want, e2)
@@ -416,13 +612,13 @@ func (k *checker) handle(box *vmBox, raw []byte) error {
 		}
 		if cls2 != cls || out2 != out {
 			if cls2 == "conform" || cls2 == "dev" {
-				k.c.Note("case conforms on a fresh runtime but not on a reused one: %s", src)
+				k.c.Note("case conforms on a fresh runtime but not on a reused one: %s", l.label(src))
 			}
 			atomic.AddInt64(&k.n.skipped, 1)
 			continue
 		}
-		detail := fmt.Sprintf("%s  =>  implementation %s ; specification %s", src, trunc(out, 300), trunc(string(l.Exp), 300))
-		k.c.Violate(detail, map[string]any{"js": src, "consts": consts, "case": l.C, "observed": out, "expected": l.Exp, "permitted_under_open_findings": l.Dev})
+		detail := fmt.Sprintf("%s  =>  implementation %s ; specification %s", l.label(src), trunc(out, 300), trunc(string(l.Exp), 300))
+		k.c.Violate(detail, map[string]any{"js": l.label(src), "consts": consts, "case": l.C, "observed": out, "expected": l.Exp, "permitted_under_open_findings": l.Dev})
 		break
 	}
 	return nil
@@ -561,6 +757,14 @@ func (k *checker) controls() {
 	k.enqueue(&jrec{Kind: "text", Got: u("[\n 1\n]"), Want: [][]int{u("[\n  1\n]")}, control: 1})
 	k.enqueue(&jrec{Kind: "text", Got: u(`[01]`), Want: [][]int{u(`[1]`)}, control: 1})
 	k.enqueue(&jrec{Kind: "text", Got: u(`["\x"]`), Want: [][]int{u(`["x"]`)}, control: 1})
+	// Go-side texts: not a JSON text at all; member order is free for exported values only, the values are not
+	k.enqueue(&jrec{Kind: "text", Got: u(`undefined`), Want: [][]int{u(`null`)}, control: 1})
+	k.enqueue(&jrec{Kind: "text", Got: u(`"\U000e0001"`), Want: [][]int{{34, 0xdb40, 0xdc01, 34}}, control: 1})
+	k.enqueue(&jrec{Kind: "text", Got: u(`"\udb40\udc01\u007f"`), Want: [][]int{{34, 0xdb40, 0xdc01, 127, 34}}, control: 2})
+	k.enqueue(&jrec{Kind: "textmo", Got: u(`{"a":[1.0,{"d":"\u003c","c":null}],"b":2}`), Want: [][]int{u(`{"b":2,"a":[1,{"c":null,"d":"<"}]}`)}, control: 2})
+	k.enqueue(&jrec{Kind: "textmo", Got: u(`{"a":[{"d":"<","c":null},1],"b":2}`), Want: [][]int{u(`{"b":2,"a":[1,{"c":null,"d":"<"}]}`)}, control: 1})
+	k.enqueue(&jrec{Kind: "textmo", Got: u(`{"a":1,"b":2,}`), Want: [][]int{u(`{"b":2,"a":1}`)}, control: 1})
+	k.enqueue(&jrec{Kind: "textmo", Got: u(`{"a":1}`), Want: [][]int{u(`{"b":2,"a":1}`), u(`{"a":1}`)}, control: 3})
 	one := num.Of(1)
 	tree := func(n num.N) any {
 		return map[string]any{"t": "obj", "members": []any{map[string]any{"key": []int{97}, "val": map[string]any{"t": "arr", "items": []any{
@@ -621,24 +825,34 @@ func (k *checker) judge() (map[string]any, error) {
 		case m == 1 && p.Kind == "text":
 			atomic.AddInt64(&k.n.spelling, 1)
 			if len(k.spellEx) < 8 {
-				k.spellEx = append(k.spellEx, map[string]any{"js": p.src, "observed_text": jsx.UnitsString(p.Got), "prescribed_text": jsx.UnitsString(p.Want[0])})
+				k.spellEx = append(k.spellEx, map[string]any{"js": p.name(), "observed_text": jsx.UnitsString(p.Got), "prescribed_text": jsx.UnitsString(p.Want[0])})
 			}
 		case m == 1:
 		case m > 1:
 			atomic.AddInt64(&k.n.dev, 1)
 			k.c.Hit("deviation")
-		case p.Kind != "text":
+		case p.Kind != "text" && p.Kind != "textmo":
 			b, _ := json.Marshal(p)
 			k.c.Violate(fmt.Sprintf("recorded round trip rejected by the specification: JSON.stringify gave %q; record %s", trunc(jsx.UnitsString(p.Got), 200), trunc(string(b), 400)),
 				map[string]any{"record": p})
 		default:
-			out2, err2 := (&vmBox{}).eval(p.src, nil)
+			var out2 string
+			var err2 error
+			if p.redo != nil {
+				out2, err2 = p.redo()
+			} else {
+				out2, err2 = (&vmBox{}).eval(p.src, p.consts)
+			}
 			if err2 != nil || out2 != p.out {
 				atomic.AddInt64(&k.n.skipped, 1)
 				continue
 			}
-			k.c.Violate(fmt.Sprintf("%s  =>  implementation text %q is not (a respelling of) the prescribed text %q", p.src, trunc(jsx.UnitsString(p.Got), 200), trunc(jsx.UnitsString(p.Want[0]), 200)),
-				map[string]any{"js": p.src, "case": p.cse, "observed": p.out, "expected": p.exp})
+			how := "is not (a respelling of) the prescribed text"
+			if p.Kind == "textmo" {
+				how = "is not a JSON text denoting (up to member order) the value of the prescribed text"
+			}
+			k.c.Violate(fmt.Sprintf("%s  =>  implementation text %q %s %q", p.name(), trunc(jsx.UnitsString(p.Got), 200), how, trunc(jsx.UnitsString(p.Want[0]), 200)),
+				map[string]any{"js": p.name(), "consts": p.consts, "case": p.cse, "observed": p.out, "expected": p.exp})
 		}
 	}
 	return map[string]any{"config": "judge(C11Judge: observed texts and recorded round trips re-read by the specification)", "generated": res.Generated, "distinct": res.Distinct, "lines": res.Lines, "wall_s": res.Wall}, nil
@@ -966,6 +1180,47 @@ func (k *checker) selfTest() (map[string]any, error) {
 	wg.Wait()
 	if firstErr != nil {
 		return nil, firstErr
+	}
+	// the Go-side family against two deliberately wrong Go adapters
+	var goCases []kc
+	for _, raw := range k.keptGo {
+		var l Line
+		if json.Unmarshal(raw, &l) != nil {
+			continue
+		}
+		l.setMode()
+		src, consts, err := gen.Render(l.Js)
+		if err != nil {
+			continue
+		}
+		cls0, _, err := classify(plain, &l, src, consts)
+		if err != nil {
+			return nil, err
+		}
+		if cls0 == "conform" || cls0 == "dev" {
+			goCases = append(goCases, kc{l, src, consts})
+		}
+	}
+	for _, m := range []string{"swallows errors", "marshals twice"} {
+		box := &vmBox{goMut: m}
+		rejected, first := 0, ""
+		for i := range goCases {
+			cls, _, err := classify(box, &goCases[i].l, goCases[i].src, goCases[i].consts)
+			if err != nil {
+				return nil, err
+			}
+			if cls == "mismatch" || cls == "panic" {
+				rejected++
+				if first == "" {
+					first = goCases[i].l.label(goCases[i].src)
+				}
+			}
+		}
+		name := "Go-side adapter " + m
+		res[name] = map[string]any{"cases_replayed": len(goCases), "rejected": rejected, "first_rejected": first}
+		if rejected == 0 {
+			return nil, fmt.Errorf("binding self-test: the wrong adapter %q was not rejected by any of %d cases", name, len(goCases))
+		}
 	}
 	return res, nil
 }
